@@ -184,3 +184,51 @@ def run(ctx, rep):
             rep.ok("C06.3", cons, "reads slice bounds" + (" and composes them in core/register.py" if arith else " without arithmetic"), f.loc())
     if n_slice == 0:
         raise AnalysisError("C06.3: no function reads alias_slice.start/step (anchor vanished)")
+
+
+    # ------------------------------------------------------------ C06.4
+    rep.rule("C06.4", "alias resolution is composed: every non-fundamental return of Register.resolve_qubit is the source's own resolve_qubit applied to the composed index", floor=2)
+    rq = ix.find_method("jaqalpaq.core.register.Register", "resolve_qubit")
+    if rq is None:
+        raise AnalysisError("C06.4: Register.resolve_qubit vanished")
+    from ..cfg import CFG
+    from ..fieldflow import FuncFlow
+
+    cfg = CFG(rq.body)
+    fl = FuncFlow(ix, T, rq)
+    selfn = rq.params[0]
+    rets = [s_ for s_ in iter_stmts(rq.body) if isinstance(s_, ast.Return) and s_.value is not None]
+    fund_tests = [s_ for s_ in iter_stmts(rq.body) if isinstance(s_, ast.If) and any(isinstance(m, ast.Attribute) and m.attr == "fundamental" for m in ast.walk(s_.test))]
+    for r in rets:
+        cons = construct_of(rq, f"return@{rets.index(r)}")
+        loc = f"{rq.path}:{r.lineno}"
+        v = r.value
+        in_fund = any(any(x is r for x in iter_stmts(t.body)) for t in fund_tests)
+        if in_fund:
+            ok = isinstance(v, ast.Tuple) and len(v.elts) == 2 and isinstance(v.elts[0], ast.Name) and v.elts[0].id == selfn
+            if ok:
+                rep.ok("C06.4", cons, "fundamental register: (self, idx)", loc)
+            else:
+                rep.violation("C06.4", cons, "the fundamental branch does not return (self, index)", loc)
+            continue
+        is_rec = isinstance(v, ast.Call) and isinstance(v.func, ast.Attribute) and v.func.attr == "resolve_qubit"
+        if is_rec:
+            ids, roots = fl.depends(v.func.value)
+            from_alias = any(isinstance(m, ast.Attribute) and m.attr in ("alias_from", "_alias_from") for r_ in roots for m in ast.walk(r_))
+            if from_alias:
+                rep.ok("C06.4", cons, f"`{ast.unparse(v)}`", loc)
+            else:
+                rep.violation("C06.4", cons, f"`{ast.unparse(v)}` does not recurse into the alias source", loc)
+        else:
+            rep.violation("C06.4", cons, f"`return {ast.unparse(v)}` for an alias does not go through the source register's resolve_qubit: a chain of aliases is not followed to the fundamental register, or the source's own stride is not applied to the composed index", loc, witness="register q[4]\nmap tail q[1:4]\nmap work tail\nPx work[0]")
+    # no arithmetic on the *result* of the recursive call
+    def is_src(n):
+        return isinstance(n, ast.Call) and isinstance(n.func, ast.Attribute) and n.func.attr == "resolve_qubit"
+
+    tt = Taint(rq.node, is_src)
+    post = [n for n in walk_no_nested(rq.node) if isinstance(n, ast.BinOp) and isinstance(n.op, (ast.Add, ast.Mult, ast.Sub)) and (tt.expr_tainted(n.left) or tt.expr_tainted(n.right)) and not any(is_src(m) and any(x is n for x in ast.walk(m)) for m in walk_no_nested(rq.node))]
+    cons = construct_of(rq, "no-arithmetic-after-recursion")
+    if post:
+        rep.violation("C06.4", cons, f"`{ast.unparse(post[0])}` does arithmetic on the result of the source's resolve_qubit: the offset must be passed INTO the recursive call so that the source's own start/step apply to it", f"{rq.path}:{post[0].lineno}")
+    else:
+        rep.ok("C06.4", cons, "index arithmetic happens before the recursive call", rq.loc())
